@@ -43,7 +43,7 @@ CHECKS = {
              "chains of <=3 operators with parenthesised sub-chains; every explored chain is then replayed into "
              "ucglib::parse::parse (plain, fully parenthesised along the reference, contrary parentheses; "
              "simulated chains <=10 with compound operands) and the Binary tree compared with the predicted one. "
-             "Exhaustive in the stated bound, so a grouping error on any chain of that size cannot pass.",
+             "Exhaustive in the stated bound, so a grouping error on any chain of that size cannot pass. Chains of up to 6 (thorough 7) operators over one operator per published level extend the exhaustive bound where only the interleaving of levels matters.",
         design_ref="DESIGN.md §4.4, §5/C02",
         note="Trusted: TLC, the renderer/tree comparison in vp/c02.py, the AST projection of the harness. "
              "Operands are symbols or self-delimiting compound forms.",
@@ -144,7 +144,7 @@ CHECKS = {
              "the whole fragment). Agreement of VM.tla with Eval.tla is model-checked on the same programs. Replay: "
              "FileBuilder::eval_string (no checker) and FileBuilder::build on a file (checker first): when the former "
              "succeeds the latter must succeed with identical bindings, equal to the specification's values. A rejection "
-             "is keyed by the checker's message class (or by the recorded select-of-mixed-types finding).",
+             "is keyed by the checker's message class (or by the recorded select-of-mixed-types finding). Families added after the seeding rounds: function bodies selecting fields of a parameter, parameters named like earlier bindings of another type, == / != between small lists and tuples, module instances as operands, annotated lets.",
         design_ref="DESIGN.md §4.1-§4.3, §5/C07, §6",
         note="Trusted: TLC, vp/render.py, harness eval/build projections. The checker itself is not modelled (Shapes.tla is "
              "a growth item): the specification decides which programs are in the quantifier and what they evaluate to; "
@@ -179,7 +179,7 @@ CHECKS = {
              "working directories and all import graphs on 3 files incl. cyclic ones (thorough: 4 files, sampled 6/8). "
              "Replay: the projects are materialised and built with the ucg binary from every working directory (outcome, "
              "diagnostic class, artifact tree, TRACE sequence, no crash, byte identity across cwds); the import / ops-cache "
-             "/ shape-cache / static-cycle events recorded by the `verif` hooks are validated against BuildTrace.tla.",
+             "/ shape-cache / static-cycle events recorded by the `verif` hooks are validated against BuildTrace.tla. Added after the seeding rounds: an eighth syntactic position (inside a format string's @{...}), sibling files whose names begin with `std`, and a share of the build budget per configuration and outcome class.",
         design_ref="DESIGN.md §4.8, §5/C09, §8.2, §11.7",
         note="Trusted: TLC, the project renderer in vp/buildproj.py (static visibility re-checked by the shape_cache "
              "events), the ucg binary's exit status/stderr classes. Resource-exhaustion runs are excluded from step-by-step "
@@ -197,7 +197,7 @@ CHECKS = {
              "prefix are evaluated by FileBuilder::eval_string; each binding a prefix makes must be present and equal in "
              "the whole program and equal to the specification's prediction; rebinding / reserved words / leaked names "
              "must fail as predicted. Recorded executions (opcode and binding_push events) are validated against VM.tla "
-             "by VMTrace.tla: each bind event must agree with the model's symbol table of the frame it writes to.",
+             "by VMTrace.tla: each bind event must agree with the model's symbol table of the frame it writes to. Reserved words are the reference's list (compared with reference/_index.md on every run); annotated lets and constraint statements bind once as well.",
         design_ref="DESIGN.md §4.1-§4.3, §5/C10",
         note="Trusted: TLC, vp/render.py, harness eval projection. Reserved words: the list of vm.rs reserved_words plus "
              "`env`, written into Eval.tla. The rebind family is exhaustive in its bound, the scope families and the "
@@ -253,7 +253,7 @@ CHECKS = {
              "run-time error, type error} in every order incl. a repeated file (thorough: 3 x <=2 exhaustively, sampled 4 "
              "files x 8 statements). Replay through `ucg test`: per-file Pass/Fail/Err lines, the summary, the assertion "
              "log by marker (each assertion exactly once) and the exit status; the `assert` events (index, okay, wellformed) "
-             "are validated against BuildTrace.tla.",
+             "are validated against BuildTrace.tla. The log of a file that does not build is compared as well (the assertions evaluated before the error).",
         design_ref="DESIGN.md §4.8, §5/C13, §11.7",
         note="Trusted: TLC, vp/buildproj.py, the ucg binary's output format. No log is compared for files whose build "
              "fails; the running number of an assertion is a don't-care.",
@@ -335,7 +335,7 @@ CHECKS = {
              "read names the variable), and seeded random environments of 0..20 variables (names over [A-Za-z0-9_], values "
              "arbitrary Unicode) through the `ucg [--no-strict] build` binary under exactly that environment: the artifact "
              "of `out json {v = env.NAME}` must hold the exact value, an unset name must fail naming the variable (strict) "
-             "or give null, stderr must not contain the secret.",
+             "or give null, stderr must not contain the secret. Every fifth random environment is also written out whole (`out json {all = env}`) and must equal the process environment exactly.",
         design_ref="DESIGN.md §5/C18",
         note="Trusted: TLC, vp/render.py, the harness, Python json. Names that are not ucg symbols are selected in quoted "
              "form. NUL cannot occur in an environment value.",
